@@ -119,6 +119,15 @@ CHECKS['C18'] = dict(
     note='Not decided: equality of values after Display/FromStr (C22), query results after reload, constraints (not in the property text).',
     design='§4 C18')
 
+CHECKS['C19'] = dict(
+    technique='alphabet / literal-form agreement (T8) between the dump writer, the statement splitter (mode-flag and per-character switch structure read from MIR), the parser\'s literal arms and the INSERT VALUES evaluator',
+    text='Decides that the quote character is doubled and strings are quoted by the writer; that every character the splitter treats as an '
+         'escape introducer inside strings (a per-character arm that sets a one-shot flag) is escaped by the writer; that comment skipping '
+         'and line handling are not applied inside string literals; that every literal head keyword the writer emits has a parser arm; and '
+         'that the signed numeric form is accepted by the INSERT VALUES evaluator. These are alphabet-level facts, so they cover all values.',
+    note='Not decided: that INSERT coercion reproduces the exact value (special floats, precision).',
+    design='§4 C19')
+
 NOT_APPLICABLE = {
     'C01': 'Equality of result multisets with a reference engine is a value-level semantic equivalence over all queries and data; no structural necessary condition beyond those claimed under C06/C21/C24 exists and a static rule cannot stand in for an oracle.',
     'C03': 'Columnar-vs-row agreement is determined by computed values (empty input, NULL handling, sums); a rejected shape falls back safely, so no table-agreement obligation exists whose breach necessarily changes results.',
